@@ -51,6 +51,18 @@ var eventTypes = []string{"test-event", "a b", "quote\"type", "<tag>&", "√ºn√Ø ‚
 
 var seenIDs = map[string]string{}
 
+// blankURL is a *url.URL that renders as "" although it is not the zero struct (only bookkeeping fields set).
+func blankURL(t *rapid.T) *url.URL {
+	switch rapid.IntRange(0, 2).Draw(t, "blankKind") {
+	case 0:
+		return &url.URL{OmitHost: true}
+	case 1:
+		return &url.URL{RawPath: "%2F"}
+	default:
+		return &url.URL{ForceQuery: false, RawFragment: "x"}
+	}
+}
+
 func jsonEq(a, b []byte) bool {
 	da := json.NewDecoder(bytes.NewReader(a))
 	da.UseNumber()
@@ -71,8 +83,8 @@ func TestC18CloudEvents(t *testing.T) {
 		d := jsonval.Gen(t, rapid.IntRange(0, 3).Draw(t, "depth"), false)
 		kind := rapid.SampledFrom([]string{"plain", "plain", "id", "idEmpty", "data", "dataNil", "both"}).Draw(t, "payloadKind")
 		format := rapid.SampledFrom([]cloudevents.Format{"", "", cloudevents.FormatJSON, cloudevents.FormatText, cloudevents.FormatText, "yaml"}).Draw(t, "format")
-		source := rapid.SampledFrom([]string{"url", "url", "url", "url", "nil", "empty"}).Draw(t, "source")
-		schema := rapid.SampledFrom([]string{"unset", "unset", "url", "empty"}).Draw(t, "schema")
+		source := rapid.SampledFrom([]string{"url", "url", "url", "url", "nil", "empty", "blank"}).Draw(t, "source")
+		schema := rapid.SampledFrom([]string{"unset", "unset", "url", "empty", "blank"}).Draw(t, "schema")
 		signer := rapid.SampledFrom([]string{"nil", "ok", "ok", "ok", "fail", "fail"}).Draw(t, "signer")
 		et := rapid.SampledFrom(eventTypes).Draw(t, "eventType")
 		listed := rapid.Bool().Draw(t, "listed")
@@ -117,12 +129,16 @@ func TestC18CloudEvents(t *testing.T) {
 			f.Source, _ = url.Parse("https://example.test/src?a=1")
 		case "empty":
 			f.Source = &url.URL{}
+		case "blank":
+			f.Source = blankURL(t)
 		}
 		switch schema {
 		case "url":
 			f.Schema, _ = url.Parse("https://example.test/schema.json")
 		case "empty":
 			f.Schema = &url.URL{}
+		case "blank":
+			f.Schema = blankURL(t)
 		}
 		var signedInputs [][]byte
 		signErr := errors.New("signer failed")
@@ -157,7 +173,7 @@ func TestC18CloudEvents(t *testing.T) {
 		ev := &eventlogger.Event{Type: eventlogger.EventType(et), CreatedAt: created, Formatted: map[string][]byte{}, Payload: payload}
 		out, err := f.Process(context.Background(), ev)
 
-		invalid := format == "yaml" || source != "url" || schema == "empty" || kind == "idEmpty"
+		invalid := format == "yaml" || source != "url" || schema == "empty" || schema == "blank" || kind == "idEmpty"
 		if invalid {
 			if err == nil || out != nil {
 				t.Fatalf("VIOLATION C18: invalid configuration / empty ID accepted (event=%v err=%v)\ncase: %s", out != nil, err, desc)
@@ -340,5 +356,80 @@ func TestC18CloudEvents(t *testing.T) {
 		}
 		cl := []string{"kind=" + kind, "signer=" + signer, fmt.Sprintf("listed=%v", listed), "format=" + string(format)}
 		sec.Case(mustSign && kind != "plain", desc, cl...)
+	})
+}
+
+
+// TestC18Reuse: one long-lived FormatterFilter whose exported Source / Schema / Format / SignEventTypes are
+// re-assigned between events; every event is judged against the configuration in force when it was processed.
+func TestC18Reuse(t *testing.T) {
+	sec := stats.Sec("reuse", "rapid: one FormatterFilter processes 2-6 events; between events its exported Source, Schema, Format and SignEventTypes are re-assigned (also back and forth, also to nil); oracle = the stored document reflects the configuration in force for that event (source, dataschema presence and value, content type, format key, signed iff listed); non-trivial = a field was changed between two events; distinct = history descriptor")
+	rapid.Check(t, func(t *rapid.T) {
+		srcs := []string{"https://a.example/src", "https://b.example/src?x=1"}
+		schemas := []string{"", "https://a.example/schema", "https://b.example/schema"}
+		f := &cloudevents.FormatterFilter{Signer: func(_ context.Context, b []byte) (string, error) { return "sig", nil }}
+		n := rapid.IntRange(2, 6).Draw(t, "events")
+		var hist []string
+		changes := 0
+		prev := ""
+		for i := 0; i < n; i++ {
+			src := rapid.SampledFrom(srcs).Draw(t, "src")
+			sch := rapid.SampledFrom(schemas).Draw(t, "schema")
+			fm := rapid.SampledFrom([]cloudevents.Format{"", cloudevents.FormatJSON, cloudevents.FormatText}).Draw(t, "format")
+			listed := rapid.Bool().Draw(t, "listed")
+			f.Source, _ = url.Parse(src)
+			if sch == "" {
+				f.Schema = nil
+			} else {
+				f.Schema, _ = url.Parse(sch)
+			}
+			f.Format = fm
+			f.SignEventTypes = nil
+			if listed {
+				f.SignEventTypes = []string{"T"}
+			}
+			cfg := fmt.Sprintf("{src=%s schema=%q format=%q listed=%v}", src, sch, fm, listed)
+			if prev != "" && prev != cfg {
+				changes++
+			}
+			prev = cfg
+			hist = append(hist, cfg)
+			ev := &eventlogger.Event{Type: "T", CreatedAt: time.Now(), Formatted: map[string][]byte{}, Payload: map[string]interface{}{"i": i}}
+			out, err := f.Process(context.Background(), ev)
+			if err != nil || out != ev {
+				t.Fatalf("VIOLATION C18: event %d on a reused formatter failed: %v\nhistory: %v", i, err, hist)
+			}
+			key := string(cloudevents.FormatJSON)
+			if fm == cloudevents.FormatText {
+				key = string(cloudevents.FormatText)
+			}
+			doc, ok := ev.Format(key)
+			if !ok {
+				t.Fatalf("VIOLATION C18: event %d: nothing stored under %q\nhistory: %v", i, key, hist)
+			}
+			var m map[string]interface{}
+			if json.Unmarshal(doc, &m) != nil {
+				t.Fatalf("VIOLATION C18: event %d: stored document is not JSON\nhistory: %v", i, hist)
+			}
+			if m["source"] != src {
+				t.Fatalf("VIOLATION C18: event %d: source %v, configured %s\nhistory: %v", i, m["source"], src, hist)
+			}
+			ds, has := m["dataschema"]
+			if (sch != "") != has || (has && ds != sch) {
+				t.Fatalf("VIOLATION C18: event %d: dataschema %v (present=%v), configured %q\nhistory: %v", i, ds, has, sch, hist)
+			}
+			_, signed := m["serialized_hmac"]
+			if signed != listed {
+				t.Fatalf("VIOLATION C18: event %d: signed=%v although listed=%v\nhistory: %v", i, signed, listed, hist)
+			}
+			if signed {
+				raw, _ := base64.RawURLEncoding.DecodeString(fmt.Sprint(m["serialized"]))
+				var um map[string]interface{}
+				if json.Unmarshal(raw, &um) != nil || um["source"] != src {
+					t.Fatalf("VIOLATION C18: event %d: the signed bytes carry source %v, configured %s\nhistory: %v", i, um["source"], src, hist)
+				}
+			}
+		}
+		sec.Case(changes > 0, strings.Join(hist, " "), fmt.Sprintf("changes>0=%v", changes > 0))
 	})
 }
